@@ -122,3 +122,100 @@ def lane(prop, n=12):
                 "wall_s": round(time.time() - t0, 1), "verdict": "report-only (does not affect the property's verdict)"}
     except Exception as ex:      # the lane must never break a check
         return {"tool": "miri", "status": "lane failed: %r" % (ex,)}
+
+
+# ----------------------------------------------------------------------------- AddressSanitizer lane
+# A second build of /repo's working tree (nightly, -Zsanitizer=address, hooks on) runs a sample of a property's own
+# workload.  A red-zone / use-after-free report is a memory error of the interpreter or compiler on a program the
+# compiler accepted.  For C02 this is part of the verdict (the statement lists the only failures an accepted program
+# may have; "the interpreter corrupted its heap" is not one of them); for the other properties it is report-only.
+
+ASAN_TARGET = os.path.join(core.WORK, "target_asan")
+ASAN_BIN = os.path.join(ASAN_TARGET, "x86_64-unknown-linux-gnu", "debug", "mscript")
+ASAN_OPTIONS = "detect_leaks=0:halt_on_error=1:abort_on_error=0:exitcode=97:allocator_may_return_null=1"
+
+
+def asan_build():
+    """Returns the path of the ASan binary, or None (with a reason) when this toolchain cannot build it."""
+    env = dict(os.environ)
+    env["RUSTFLAGS"] = "-Zsanitizer=address -Cforce-frame-pointers=yes " + core.RUSTFLAGS
+    env["CARGO_TARGET_DIR"] = ASAN_TARGET
+    env["CARGO_NET_OFFLINE"] = "true"
+    env.pop("RUST_BACKTRACE", None)
+    try:
+        p = subprocess.run(["cargo", "+nightly", "build", "--offline", "--bin", "mscript", "--target",
+                            "x86_64-unknown-linux-gnu"], cwd=core.REPO, env=env, stdout=subprocess.PIPE,
+                           stderr=subprocess.STDOUT, text=True, timeout=1800)
+    except (OSError, subprocess.TimeoutExpired) as ex:
+        return None, "asan build not possible: %r" % (ex,)
+    if p.returncode != 0 or not os.path.exists(ASAN_BIN):
+        return None, "asan build failed: " + p.stdout[-300:]
+    return ASAN_BIN, ""
+
+
+_ASAN_RE = re.compile(r"ERROR: AddressSanitizer: ([^\n]*)")
+
+
+def asan_report(err):
+    """(kind, first in-repo frame) of an ASan report in `err`, or None."""
+    m = _ASAN_RE.search(err or "")
+    if not m:
+        return None
+    kind = m.group(1).split(" on address")[0].split(" on unknown")[0].strip()[:80]
+    frame = "?"
+    for fm in re.finditer(r"#\d+ 0x[0-9a-f]+ in (\S+) (\S+)", err):
+        fn, where = fm.group(1), fm.group(2)
+        if "/bytecode/src/" in where or "/compiler/src/" in where or where.startswith(core.REPO + "/src/"):
+            frame = re.sub(r"::h[0-9a-f]{16}$", "", fn)[:120]
+            break
+    return kind, frame
+
+
+def _asan_one(item):
+    name, files, entry, env = item
+    d = core.case_dir("asan")
+    try:
+        core.write_files(d, files)
+        e = {"ASAN_OPTIONS": ASAN_OPTIONS}
+        e.update(env or {})
+        ra = core.run([ASAN_BIN, "run", entry, "-q"], d, e, cpu=60)
+        rn = core.run(core.ms("run", entry, "-q"), d, env or {}, cpu=20)
+    finally:
+        core.rm(d)
+    rep = asan_report(ra.err)
+    same = (ra.cls == rn.cls)   # texts may differ legitimately (hash order, addresses)
+    return {"name": name, "report": rep, "same_as_plain_build": same, "cls": ra.cls, "plain_cls": rn.cls,
+            "err_tail": ra.err[-1500:] if rep else "", "files": files if rep else None}
+
+
+def asan_lane(programs, env=None):
+    """programs: [(name, {file: text}, entry)].  Returns (evidence dict, [reports with program])."""
+    t0 = time.time()
+    try:
+        binp, why = asan_build()
+        if not binp:
+            return {"tool": "asan", "status": why}, []
+        res = core.pmap(_asan_one, [(n, f, en, env) for n, f, en in programs], chunksize=4)
+        ok = [r for s, r in res if s == "ok"]
+        reports = {}
+        hits = []
+        for r in ok:
+            if r["report"]:
+                key = "%s @ %s" % r["report"]
+                reports.setdefault(key, []).append(r["name"])
+                hits.append(r)
+        diff = [r["name"] for r in ok if not r["report"] and not r["same_as_plain_build"] and r["cls"] not in ("cpu_timeout", "wall_timeout") and r["plain_cls"] not in ("signal",)]
+        return {"tool": "rustc +nightly -Zsanitizer=address build of the working tree (hooks on), ASAN_OPTIONS=" + ASAN_OPTIONS,
+                "programs_run_under_asan": len(ok), "exit_classes": _count(r["cls"] for r in ok),
+                "distinct_reports": [{"report": k, "programs": v[:5], "count": len(v)} for k, v in sorted(reports.items())],
+                "exit_class_differs_from_plain_build_without_report": diff[:10],
+                "wall_s": round(time.time() - t0, 1)}, hits
+    except Exception as ex:      # the lane must never break a check
+        return {"tool": "asan", "status": "lane failed: %r" % (ex,)}, []
+
+
+def _count(it):
+    c = {}
+    for x in it:
+        c[x] = c.get(x, 0) + 1
+    return c
